@@ -137,7 +137,7 @@ func drawName(r *fw.Rand, container string) string {
 			w = fw.Pick(r, reservedWords)
 		}
 		n := fw.Pick(r, nameVariants(w))
-		if r.Chance(0.03) {
+		if r.Chance(0.004) {
 			n = fw.Pick(r, []string{"true", "false", "null"})
 		}
 		if nameAllowed(container, n) {
@@ -190,6 +190,9 @@ func (b *bindings) addRef(d dynRef) {
 		return
 	}
 	b.dynIdx[d.legacy] = len(b.dyn)
+	if d.twin != "" {
+		b.twinVals[d.twin] = d.v
+	}
 	b.dyn = append(b.dyn, d)
 	b.dynByType[d.t] = append(b.dynByType[d.t], len(b.dyn)-1)
 }
@@ -392,9 +395,11 @@ func (b *bindings) addContact(r *fw.Rand, root string, name string) {
 		for _, scheme := range []string{"tel", "twitter", "mailto", "telegram", "facebook", "whatsapp"} {
 			u, has := specs[scheme]
 			if !has {
-				add("."+scheme, text(""))
+				// only the rows that are migrated with an explicit default(…, "") are compared for a missing URN
 				if scheme == "tel" {
 					add(".tel_e164", text(""))
+				} else {
+					add("."+scheme, text(""))
 				}
 				continue
 			}
